@@ -740,6 +740,17 @@ def judge_presence(ctx, cnt, spec, real, case_id):
                 ctx.report_failure(key, 'block %r should give <%s> %s=%r but the GIR has %r (%s)'
                                    % (b['key'], el['tag'], name, value, got, addr),
                                    {'kind': 'case', 'spec': spec, 'block': b['key'], 'item': name})
+    # how often the accessor pairing heuristic was at work (coverage only: the statement speaks about the
+    # annotations; the heuristic is compared against the model)
+    for w in warnings:
+        if 'Multiple getter candidates' in w:
+            cnt.hit('accessor:several-getter-candidates')
+    for a, e in elems.items():
+        if a.startswith('fn:'):
+            own = [o for o in spec['blocks'] if o['key'] == a[3:]]
+            for ann, attr in (('get-property', 'glib:get-property'), ('set-property', 'glib:set-property')):
+                if attr in e['rec']['attrs'] and not any(ann_opts(o, ann) for o in own):
+                    cnt.hit('accessor:inferred-' + ann)
     # virtual methods inherit from their invoker when they have no block of their own
     for va, invs in inv.items():
         el = elems.get(va)
@@ -1056,6 +1067,17 @@ def gen_spec(rng, size=None):
                     if v['name'] == w and rng.random() < 0.7:
                         np_ = v['nparams']
                 t['funcs'].append({'symbol': us + w + rng.choice(['', '', '_it']), 'role': 'method', 'nparams': np_})
+            # accessor names the pairing heuristic looks for: get_<prop>, set_<prop>, is_<prop> (and <prop>
+            # itself, above); now and then a dashed property name (normalised to '_' for the lookup)
+            if rng.random() < 0.25:
+                a, b2 = rng.sample(WORDS, 2)
+                t['props'].append({'name': '%s-%s' % (a, b2), 'flags': rng.choice([1, 3, 3, 11]),
+                                   'type': rng.choice(['gint', 'gboolean'])})
+            for p in t['props']:
+                nn = p['name'].replace('-', '_')
+                for acc, prob, np_ in (('get_', 0.35, 0), ('set_', 0.3, 1), ('is_', 0.3, 0)):
+                    if rng.random() < prob:
+                        t['funcs'].append({'symbol': us + acc + nn, 'role': 'method', 'nparams': np_})
             if k == 'class':
                 t['funcs'].append({'symbol': us + 'new', 'role': 'ctor', 'nparams': 0})
                 if rng.random() < 0.4:
